@@ -847,6 +847,13 @@ func (p *Path) binop(op token.Token, x, y Value, xt types.Type) Value {
 	case token.NEQ:
 		return mkNot(p.eqValue(x, y))
 	}
+	if fa, isF := x.(FloatVal); isF {
+		if fb, isF2 := y.(FloatVal); isF2 {
+			if r, ok := p.floatBinop(op, fa, fb); ok {
+				return r
+			}
+		}
+	}
 	a, ok1 := x.(*Term)
 	b, ok2 := y.(*Term)
 	if !ok1 || !ok2 {
@@ -1012,6 +1019,11 @@ func (p *Path) eqValue(x, y Value) *Term {
 		b := y.(FloatVal)
 		if a.isC && b.isC {
 			return mkBool(a.cf == b.cf && a.cc == b.cc)
+		}
+		if a.bits2 == nil && b.bits2 == nil {
+			if r, ok := p.floatBinop(token.EQL, a, b); ok {
+				return r.(*Term)
+			}
 		}
 		if !a.isC && !b.isC {
 			return mkEq(a.bits, b.bits)
